@@ -91,7 +91,7 @@ pub enum K {
 const KEYS: [K; 4] = [K::K0, K::K1, K::K2, K::K3];
 
 /// frame deltas in nanoseconds: 0, 1/512 s, 1/8 s, 1/2 s, 3 s, 100 s (exact), and some arbitrary ones
-const DELTAS_NS: [u64; 11] = [0, 1_953_125, 125_000_000, 500_000_000, 3_000_000_000, 100_000_000_000, 62_500_000, 16_666_667, 1, 33_000_000, 250_000_000];
+const DELTAS_NS: [u64; 14] = [0, 1_953_125, 125_000_000, 500_000_000, 3_000_000_000, 100_000_000_000, 62_500_000, 16_666_667, 1, 33_000_000, 250_000_000, 25_000_000, 50_000_000, 100_000_000];
 
 fn rank(s: AnimationState) -> u8 {
     match s {
@@ -362,7 +362,7 @@ fn bevy_timing_strategy() -> impl Strategy<Value = Timing> {
 }
 
 fn frame_sel() -> impl Strategy<Value = u8> {
-    prop_oneof![7 => 0u8..7, 2 => 7u8..11]
+    prop_oneof![7 => 0u8..7, 3 => 7u8..14]
 }
 
 fn c18_strategy() -> impl Strategy<Value = C18Case> {
@@ -420,6 +420,7 @@ fn c18_judge(c: &C18Case, obs: &mut Obs) -> Result<(), String> {
     obs.label_if(6, c.tl.timing.repeat == Rep::Infinite);
     obs.label_if(10, c.tl.timing.delay > 0.0);
     let mut ended_events_since_reset = 0u32;
+    let mut runner_state = AnimationState::None;
     for (n, op) in c.ops.iter().enumerate() {
         match *op {
             BOp::Enable => w.app.world.get_mut::<Animator<A>>(entity).unwrap().enabled = true,
@@ -454,10 +455,20 @@ fn c18_judge(c: &C18Case, obs: &mut Obs) -> Result<(), String> {
                     }
                 }
                 if let Some(e) = runner_up {
-                    let a = w.app.world.get::<Animator<A>>(e).unwrap();
-                    if a.state() == AnimationState::None {
+                    let st = w.app.world.get::<Animator<A>>(e).unwrap().state();
+                    if st == AnimationState::None {
                         return Err(format!("op {n}: a second entity's animator (spawned later, infinite timeline) never left state None"));
                     }
+                    // its events: exactly one iff ITS state changed in this frame
+                    let its: Vec<AnimationState> = events.iter().filter(|(x, _)| *x == e).map(|(_, s)| *s).collect();
+                    let want: Vec<AnimationState> = if st != runner_state { vec![st] } else { vec![] };
+                    if its != want {
+                        return Err(format!("op {n}: the other entity's animator went {:?} -> {:?} in this frame but its events are {:?}", runner_state, st, its));
+                    }
+                    runner_state = st;
+                }
+                if events.iter().any(|(x, _)| idle.contains(x)) {
+                    return Err(format!("op {n}: an event was sent for an idle bystander entity: {:?}", events));
                 }
                 let events: Vec<(Entity, AnimationState)> = events.into_iter().filter(|(e, _)| *e == entity).collect();
                 // events: exactly one iff the state changed, carrying the state at the end of the frame
@@ -509,6 +520,8 @@ fn c18(run: &mut Run) {
 pub enum SOp {
     Frame(u8),
     SetKey(u8),
+    /// enable / disable the governed animator
+    Enable(bool),
 }
 
 #[derive(Clone, Debug, Serialize, Deserialize)]
@@ -519,6 +532,9 @@ pub struct C19Case {
     pub chain: Option<Vec<(u8, u8)>>,
     /// second animated component type B with its own Animator<B> (duration in 1/8 s units)
     pub with_b: Option<u8>,
+    /// delay of B's timeline in 1/8 s units (its Waiting -> Playing change then falls on some later frame)
+    #[serde(default)]
+    pub b_delay: u8,
     pub start: Vals,
     pub ops: Vec<SOp>,
 }
@@ -527,8 +543,9 @@ fn c19_strategy() -> impl Strategy<Value = C19Case> {
     let finite_timing = (prop::sample::select(vec![0.25f32, 0.5, 1.0, 1.5, 3.0]), prop_oneof![3 => Just(0.0f32), 1 => prop::sample::select(vec![0.125f32, 0.5])], prop_oneof![4 => Just(Rep::None), 1 => Just(Rep::Times(1)), 1 => Just(Rep::Infinite)], any::<bool>())
         .prop_map(|(cycle, delay, repeat, reverse)| Timing { cycle, delay, repeat, reverse });
     let op = prop_oneof![
-        10 => prop_oneof![6 => 0u8..5, 1 => 5u8..11].prop_map(SOp::Frame),
+        10 => prop_oneof![6 => 0u8..5, 2 => 5u8..14].prop_map(SOp::Frame),
         3 => (0u8..4).prop_map(SOp::SetKey),
+        1 => any::<bool>().prop_map(SOp::Enable),
     ];
     let chain = prop::option::weighted(0.7, prop::collection::vec((0u8..4, 0u8..4), 0..=3).prop_map(|v| v.into_iter().filter(|(a, b)| a != b).collect::<Vec<_>>()));
     (
@@ -538,11 +555,12 @@ fn c19_strategy() -> impl Strategy<Value = C19Case> {
         prop::option::weighted(0.4, 1u8..24),
         desc::vals_strategy(),
         prop::collection::vec(op, 1..=40),
+        prop_oneof![2 => Just(0u8), 3 => 0u8..12],
     )
-        .prop_map(|(tls, initial_key, chain, with_b, start, ops)| C19Case { tls, initial_key, chain, with_b, start, ops })
+        .prop_map(|(tls, initial_key, chain, with_b, start, ops, b_delay)| C19Case { tls, initial_key, chain, with_b, b_delay, start, ops })
 }
 
-const C19_LABELS: [&str; 12] = ["key_change_mid_flight", "chain_fired", "end_without_chain_entry", "other_animator_ended", "key_set_in_gap_after_end", "same_key_reassigned", "key_without_timeline", "has_chain", "two_component_types", "chain_first_order_consistent", "select_first_order_consistent", "ended_reached"];
+const C19_LABELS: [&str; 13] = ["key_change_mid_flight", "chain_fired", "end_without_chain_entry", "other_animator_ended", "key_set_in_gap_after_end", "same_key_reassigned", "key_without_timeline", "has_chain", "two_component_types", "chain_first_order_consistent", "select_first_order_consistent", "ended_reached", "animator_disabled"];
 
 /// One hypothesis about the (unspecified but fixed) relative order of chain_animations / select_animation.
 struct Hyp {
@@ -578,7 +596,7 @@ fn c19_judge(c: &C19Case, obs: &mut Obs) -> Result<(), String> {
         obs.label(7);
     }
     if let Some(units) = c.with_b {
-        let btl = TimelineBuilder::build(B::timeline().duration_seconds(units as f32 / 8.0).keyframe(B::keyframe(0.0).v(0.0)).keyframe(B::keyframe(1.0).v(1.0)));
+        let btl = TimelineBuilder::build(B::timeline().duration_seconds(units as f32 / 8.0).delay_seconds(c.b_delay as f32 / 8.0).keyframe(B::keyframe(0.0).v(0.0)).keyframe(B::keyframe(1.0).v(1.0)));
         ec.insert((B { v: 0.0 }, Animator::<B>::with_timeline(btl)));
         obs.label(8);
     }
@@ -607,6 +625,10 @@ fn c19_judge(c: &C19Case, obs: &mut Obs) -> Result<(), String> {
                 key = k;
                 set_since_frame = true;
                 obs.label_if(6, k == 3);
+            }
+            SOp::Enable(on) => {
+                w.app.world.get_mut::<Animator<A>>(entity).unwrap().enabled = on;
+                obs.label_if(12, !on);
             }
             SOp::Frame(sel) => {
                 let dns = DELTAS_NS[sel as usize % DELTAS_NS.len()];
